@@ -51,6 +51,9 @@ def anyR {α : Type} (f : α → Res Bool) : List α → Res Bool
 inductive LErr where
   | oob
   | invalidFormat (n : Nat)
+  | nullOffset
+  /-- `InvalidCollectionIndex(idx)` of `ArrayOfOffsets::get` -/
+  | badIndex (n : Nat)
   deriving Repr, DecidableEq
 
 /-- the `n` big-endian `u16`s at byte `at` (only used when they exist) -/
@@ -417,5 +420,638 @@ def scriptTagsFromUnicode (u : Nat) : Res (List Nat) :=
     (setTag p.1 p.2 (oldTagFromUnicode u)).bind (fun ts =>
       let len := p.2 + 1
       if len ≤ ts.length then .val (ts.take len) else .trap))
+
+/-! ## GSUB tables as the closure sees them
+
+Transcription of the generated readers (generated_layout.rs, generated_gsub.rs: cursor reads, one final
+bounds check) with offsets resolved as `ResolveOffset::resolve` does (`0` → `NullOffset`, beyond the
+data → `OutOfBounds`, then the child's `read` on `data.split_off(off)`, i.e. up to the END of the
+buffer).  Positions are absolute.  A `PR` value is what the lazy accessor returns when the closure
+reaches it. -/
+
+abbrev PR := Except LErr
+
+def rd16 (d : List Nat) (p : Nat) : PR Nat :=
+  match readAt d p 2 with
+  | some v => .ok v
+  | none => .error .oob
+
+def rd32 (d : List Nat) (p : Nat) : PR Nat :=
+  match readAt d p 4 with
+  | some v => .ok v
+  | none => .error .oob
+
+/-- `cursor.finish`: the table's `n` bytes at `p` exist -/
+def need (d : List Nat) (p n : Nat) : PR Unit := if p + n ≤ d.length then .ok () else .error .oob
+
+/-- `offset.resolve(data)` for a table at `p`: the child's position -/
+def resolveAt (d : List Nat) (p off : Nat) : PR Nat :=
+  if off = 0 then .error .nullOffset else if p + off ≤ d.length then .ok (p + off) else .error .oob
+
+/-- `ArrayOfOffsets<T, Offset16>` of the table at `p`: the `n` offsets at `at_`, resolved -/
+def offsets16 (d : List Nat) (p at_ n : Nat) : List (PR Nat) := (u16sAt d at_ n).map (resolveAt d p)
+
+/-- `ArrayOfNullableOffsets<T, Offset16>`: a null offset is `None` -/
+def nullable16 (d : List Nat) (p at_ n : Nat) : List (Option (PR Nat)) :=
+  (u16sAt d at_ n).map (fun off => if off = 0 then none else some (resolveAt d p off))
+
+/-- `SequenceLookupRecord { sequence_index, lookup_list_index }` -/
+structure SeqRec where
+  seqIdx : Nat
+  lookup : Nat
+  deriving Repr, DecidableEq
+
+/-- `SequenceRule` / `ClassSequenceRule` (`back = look = []`), `ChainedSequenceRule` /
+`ChainedClassSequenceRule` -/
+structure Rule where
+  input : List Nat
+  back : List Nat
+  look : List Nat
+  recs : List SeqRec
+  deriving Repr, DecidableEq
+
+/-- a GSUB subtable of one of the seven concrete lookup types -/
+inductive Sub where
+  /-- `SingleSubstFormat1`: `coverage()`, `delta_glyph_id` -/
+  | single1 (cov : PR Coverage) (delta : Int)
+  /-- `SingleSubstFormat2`: `coverage()`, `substitute_glyph_ids` -/
+  | single2 (cov : PR Coverage) (subs : List Nat)
+  /-- `MultipleSubstFormat1` (`sequences()`) and `AlternateSubstFormat1` (`alternate_sets()`) -/
+  | multiple (cov : PR Coverage) (seqs : List (PR (List Nat)))
+  /-- `LigatureSubstFormat1`: ligature sets of `(ligature_glyph, component_glyph_ids)` -/
+  | ligature (cov : PR Coverage) (sets : List (PR (List (PR (Nat × List Nat)))))
+  /-- `ReverseChainSingleSubstFormat1`: backtrack ++ lookahead coverages, coverage, substitutes -/
+  | reverse (others : List (PR Coverage)) (cov : PR Coverage) (subs : List Nat)
+  /-- `(Chained)SequenceContextFormat1` -/
+  | ctx1 (cov : PR Coverage) (sets : List (Option (PR (List (PR Rule)))))
+  /-- `(Chained)SequenceContextFormat2` with its (input) class definition -/
+  | ctx2 (cov : PR Coverage) (cls : PR ClassDef) (sets : List (Option (PR (List (PR Rule)))))
+  /-- `(Chained)SequenceContextFormat3`: input coverages, backtrack ++ lookahead coverages, records -/
+  | ctx3 (covs : List (PR Coverage)) (others : List (PR Coverage)) (recs : List SeqRec)
+  deriving Repr
+
+/-- what `SubstitutionLookup::subtables()` gives: an error, or the subtables each read lazily -/
+abbrev Lookup := PR (List (PR Sub))
+
+def covAt (d : List Nat) (q : Nat) : PR Coverage := covRead (d.drop q)
+def clsAt (d : List Nat) (q : Nat) : PR ClassDef := clsRead (d.drop q)
+
+/-- `self.xxx_offset().resolve(data)` for a coverage offset stored at `at_` of the table at `p` -/
+def covOff (d : List Nat) (p at_ : Nat) : PR Coverage := resolveAt d p (beAt d at_ 2) >>= covAt d
+def clsOff (d : List Nat) (p at_ : Nat) : PR ClassDef := resolveAt d p (beAt d at_ 2) >>= clsAt d
+
+def seqRecsAt (d : List Nat) (at_ n : Nat) : List SeqRec :=
+  (List.range n).map (fun i => ⟨beAt d (at_ + 4 * i) 2, beAt d (at_ + 4 * i + 2) 2⟩)
+
+/-- `Sequence::read` / `AlternateSet::read` -/
+def seqAt (d : List Nat) (q : Nat) : PR (List Nat) := do
+  let n ← rd16 d q
+  need d q (2 + 2 * n)
+  pure (u16sAt d (q + 2) n)
+
+/-- `Ligature::read`: `component_count - 1` (saturating) component glyphs -/
+def ligAt (d : List Nat) (q : Nat) : PR (Nat × List Nat) := do
+  let g ← rd16 d q
+  let cc ← rd16 d (q + 2)
+  need d q (4 + 2 * (cc - 1))
+  pure (g, u16sAt d (q + 4) (cc - 1))
+
+def ligSetAt (d : List Nat) (q : Nat) : PR (List (PR (Nat × List Nat))) := do
+  let n ← rd16 d q
+  need d q (2 + 2 * n)
+  pure ((offsets16 d q (q + 2) n).map (· >>= ligAt d))
+
+/-- `SequenceRule::read` / `ClassSequenceRule::read` -/
+def ruleAt (d : List Nat) (q : Nat) : PR Rule := do
+  let gc ← rd16 d q
+  let n ← rd16 d (q + 2)
+  need d q (4 + 2 * (gc - 1) + 4 * n)
+  pure ⟨u16sAt d (q + 4) (gc - 1), [], [], seqRecsAt d (q + 4 + 2 * (gc - 1)) n⟩
+
+/-- `ChainedSequenceRule::read` / `ChainedClassSequenceRule::read` -/
+def chainRuleAt (d : List Nat) (q : Nat) : PR Rule := do
+  let b ← rd16 d q
+  let ip := q + 2 + 2 * b
+  let gc ← rd16 d ip
+  let lp := ip + 2 + 2 * (gc - 1)
+  let l ← rd16 d lp
+  let np := lp + 2 + 2 * l
+  let n ← rd16 d np
+  need d np (2 + 4 * n)
+  pure ⟨u16sAt d (ip + 2) (gc - 1), u16sAt d (q + 2) b, u16sAt d (lp + 2) l, seqRecsAt d (np + 2) n⟩
+
+/-- the four `…RuleSet::read`s: `count` non-nullable rule offsets -/
+def ruleSetAt (chained : Bool) (d : List Nat) (q : Nat) : PR (List (PR Rule)) := do
+  let n ← rd16 d q
+  need d q (2 + 2 * n)
+  pure ((offsets16 d q (q + 2) n).map (· >>= (if chained then chainRuleAt d else ruleAt d)))
+
+def ruleSetsAt (chained : Bool) (d : List Nat) (p at_ n : Nat) : List (Option (PR (List (PR Rule)))) :=
+  (nullable16 d p at_ n).map (Option.map (· >>= ruleSetAt chained d))
+
+/-- `SequenceContext::read` / `ChainedSequenceContext::read` (format switch) and the format readers -/
+def contextAt (chained : Bool) (d : List Nat) (p : Nat) : PR Sub := do
+  let fmt ← rd16 d p
+  if fmt = 1 then
+    let n ← rd16 d (p + 4)
+    need d p (6 + 2 * n)
+    pure (.ctx1 (covOff d p (p + 2)) (ruleSetsAt chained d p (p + 6) n))
+  else if fmt = 2 then
+    if chained then
+      let n ← rd16 d (p + 10)
+      need d p (12 + 2 * n)
+      pure (.ctx2 (covOff d p (p + 2)) (clsOff d p (p + 6)) (ruleSetsAt chained d p (p + 12) n))
+    else
+      let n ← rd16 d (p + 6)
+      need d p (8 + 2 * n)
+      pure (.ctx2 (covOff d p (p + 2)) (clsOff d p (p + 4)) (ruleSetsAt chained d p (p + 8) n))
+  else if fmt = 3 then
+    if chained then
+      let b ← rd16 d (p + 2)
+      let ip := p + 4 + 2 * b
+      let gc ← rd16 d ip
+      let lp := ip + 2 + 2 * gc
+      let l ← rd16 d lp
+      let np := lp + 2 + 2 * l
+      let n ← rd16 d np
+      need d np (2 + 4 * n)
+      pure (.ctx3 ((offsets16 d p (ip + 2) gc).map (· >>= covAt d))
+        (((offsets16 d p (p + 4) b) ++ (offsets16 d p (lp + 2) l)).map (· >>= covAt d))
+        (seqRecsAt d (np + 2) n))
+    else
+      let gc ← rd16 d (p + 2)
+      let n ← rd16 d (p + 4)
+      need d p (6 + 2 * gc + 4 * n)
+      pure (.ctx3 ((offsets16 d p (p + 6) gc).map (· >>= covAt d)) [] (seqRecsAt d (p + 6 + 2 * gc) n))
+  else .error (.invalidFormat fmt)
+
+/-- `T::read` for the subtable type `T` of lookup type `ty` (1–6, 8) at `p` -/
+def subAt (d : List Nat) (ty p : Nat) : PR Sub :=
+  if ty = 1 then do
+    let fmt ← rd16 d p
+    if fmt = 1 then
+      need d p 6
+      pure (.single1 (covOff d p (p + 2)) (toSigned 16 (beAt d (p + 4) 2)))
+    else if fmt = 2 then
+      let n ← rd16 d (p + 4)
+      need d p (6 + 2 * n)
+      pure (.single2 (covOff d p (p + 2)) (u16sAt d (p + 6) n))
+    else .error (.invalidFormat fmt)
+  else if ty = 2 ∨ ty = 3 then do
+    let n ← rd16 d (p + 4)
+    need d p (6 + 2 * n)
+    pure (.multiple (covOff d p (p + 2)) ((offsets16 d p (p + 6) n).map (· >>= seqAt d)))
+  else if ty = 4 then do
+    let n ← rd16 d (p + 4)
+    need d p (6 + 2 * n)
+    pure (.ligature (covOff d p (p + 2)) ((offsets16 d p (p + 6) n).map (· >>= ligSetAt d)))
+  else if ty = 5 then contextAt false d p
+  else if ty = 6 then contextAt true d p
+  else do
+    -- `ReverseChainSingleSubstFormat1::read`
+    let b ← rd16 d (p + 4)
+    let lp := p + 6 + 2 * b
+    let l ← rd16 d lp
+    let np := lp + 2 + 2 * l
+    let n ← rd16 d np
+    need d np (2 + 2 * n)
+    pure (.reverse (((offsets16 d p (p + 6) b) ++ (offsets16 d p (lp + 2) l)).map (· >>= covAt d))
+      (covOff d p (p + 2)) (u16sAt d (np + 2) n))
+
+/-- `SubstitutionLookup::read` (`Lookup::read` + the lookup type check), then what
+`SubstitutionLookup::subtables()` and `Subtables::iter` produce: for the extension type 7 the type of
+the FIRST extension subtable selects `T`, and every subtable is `ExtensionSubstFormat1::read` (8 bytes)
+followed by `extension()` (a non-nullable `Offset32` from the extension subtable). -/
+def lookupAt (d : List Nat) (p : Nat) : PR Lookup := do
+  let ty ← rd16 d p
+  let flag ← rd16 d (p + 2)
+  let n ← rd16 d (p + 4)
+  need d p (6 + 2 * n + (if flag / 16 % 2 = 1 then 2 else 0))
+  if ty = 0 ∨ ty > 8 then .error (.invalidFormat ty)
+  else
+    let offs := offsets16 d p (p + 6) n
+    if ty ≠ 7 then pure (.ok (offs.map (· >>= subAt d ty)))
+    else
+      pure (do
+        let first ← (match u16sAt d (p + 6) n with
+          | [] => .error .oob
+          | off :: _ => resolveAt d p off)
+        need d first 8
+        let ety : Nat := HandRead.beAt d (first + 2) 2
+        if ety = 0 ∨ ety = 7 ∨ ety > 8 then .error (.invalidFormat ety)
+        else
+          pure (offs.map (fun r => do
+            let q ← r
+            need d q 8
+            let t ← resolveAt d q (beAt d (q + 4) 4)
+            subAt d ety t)))
+
+/-- `Feature::read_with_args`: the `lookup_list_indices` -/
+def featureAt (d : List Nat) (q : Nat) : PR (List Nat) := do
+  let n ← rd16 d (q + 2)
+  need d q (4 + 2 * n)
+  pure (u16sAt d (q + 4) n)
+
+/-- the parts of a GSUB table the closure uses -/
+structure GsubT where
+  /-- `feature_list()` and, per record, `rec.feature(data)`'s lookup indices -/
+  features : PR (List (PR (List Nat)))
+  /-- `feature_variations()`: `None` (version 1.0 / null offset) or the table; per record
+  `feature_table_substitution(data).transpose().ok().flatten()` (an error is swallowed: `None`) and
+  per substitution record `alternate_feature(..)`'s lookup indices -/
+  fvars : Option (PR (List (Option (List (PR (List Nat))))))
+  /-- `lookup_list()` and `lookups().get(i)` for every `i < lookup_count` -/
+  lookups : PR (List (PR Lookup))
+  deriving Repr
+
+def featureListAt (d : List Nat) (q : Nat) : PR (List (PR (List Nat))) := do
+  let n ← rd16 d q
+  need d q (2 + 6 * n)
+  pure ((List.range n).map (fun i => resolveAt d q (beAt d (q + 2 + 6 * i + 4) 2) >>= featureAt d))
+
+def lookupListAt (d : List Nat) (q : Nat) : PR (List (PR Lookup)) := do
+  let n ← rd16 d q
+  need d q (2 + 2 * n)
+  pure ((offsets16 d q (q + 2) n).map (· >>= lookupAt d))
+
+/-- `FeatureTableSubstitution::read` + `alternate_feature` of every record -/
+def featSubstAt (d : List Nat) (q : Nat) : PR (List (PR (List Nat))) := do
+  let n ← rd16 d (q + 4)
+  need d q (6 + 6 * n)
+  pure ((List.range n).map (fun i => resolveAt d q (beAt d (q + 6 + 6 * i + 2) 4) >>= featureAt d))
+
+def featureVarsAt (d : List Nat) (q : Nat) : PR (List (Option (List (PR (List Nat))))) := do
+  let n ← rd32 d (q + 4)
+  need d q (8 + 8 * n)
+  pure ((List.range n).map (fun i =>
+    let off : Nat := HandRead.beAt d (q + 8 + 8 * i + 4) 4
+    if off = 0 then none
+    else match resolveAt d q off >>= featSubstAt d with
+      | .ok t => some t
+      | .error _ => none))
+
+/-- `Gsub::read` (header; version 1.1 adds the feature variations offset) -/
+def gsubRead (d : List Nat) : PR GsubT := do
+  let major ← rd16 d 0
+  let minor ← rd16 d 2
+  let v11 := major = 1 ∧ minor ≥ 1
+  need d 0 (if v11 then 14 else 10)
+  let fv : Option (PR (List (Option (List (PR (List Nat)))))) :=
+    if v11 then
+      let off : Nat := HandRead.beAt d 10 4
+      if off = 0 then none else some (resolveAt d 0 off >>= featureVarsAt d)
+    else none
+  pure ⟨resolveAt d 0 (beAt d 6 2) >>= featureListAt d, fv, resolveAt d 0 (beAt d 8 2) >>= lookupListAt d⟩
+
+/-! ## GSUB glyph closure (read-fonts/src/tables/gsub/closure.rs)
+
+`IntSet<GlyphId16>` is the ascending list of its members; a value that is not a `u16` cannot be a
+`GlyphId16` and is never a member (`G16.ins`).  `IntSet<u16>` scratch sets (`seen_sequence_indices`,
+`our_classes`) are plain lists used through `contains`. -/
+
+/-- a step of the closure: a value, `Err(ReadError)`, or a panic -/
+inductive CR (α : Type) where
+  | ok (a : α)
+  | err (e : LErr)
+  | trap
+  deriving Repr
+
+def CR.bind {α β : Type} (r : CR α) (k : α → CR β) : CR β :=
+  match r with
+  | .ok a => k a
+  | .err e => .err e
+  | .trap => .trap
+
+def CR.ofRes {α : Type} : Res α → CR α
+  | .val a => .ok a
+  | .trap => .trap
+
+abbrev G16 := List Nat
+
+/-- `IntSet<GlyphId16>::insert` -/
+def G16.ins (s : G16) (g : Nat) : G16 := if g < 65536 then insertUniq g s else s
+/-- `IntSet::extend` / `collect` / `from` -/
+def G16.ext (s : G16) (xs : List Nat) : G16 := xs.foldl G16.ins s
+def G16.ofList (xs : List Nat) : G16 := G16.ext [] xs
+
+/-- `ContextualLookupRef { lookup_id, active_glyphs }` -/
+abbrev Todo := Nat × Option G16
+
+/-- `ClosureCtx`: the closure glyphs, `cur_glyphs`, `finished_lookups` (a map), the todo `Vec`
+(head = last pushed = next popped) -/
+structure Cx where
+  glyphs : G16
+  cur : Option G16
+  finished : List (Nat × Nat × Option G16)
+  todos : List Todo
+  deriving Repr
+
+/-- `ClosureCtx::current_glyphs`: `cur_glyphs` or, when `None`, the (growing) closure glyphs -/
+def Cx.current (c : Cx) : G16 := c.cur.getD c.glyphs
+def Cx.addGlyph (c : Cx) (g : Nat) : Cx := { c with glyphs := c.glyphs.ins g }
+def Cx.extendGlyphs (c : Cx) (gs : List Nat) : Cx := { c with glyphs := c.glyphs.ext gs }
+def Cx.addTodo (c : Cx) (id : Nat) (active : Option G16) : Cx := { c with todos := (id, active) :: c.todos }
+
+def finishedGet (m : List (Nat × Nat × Option G16)) (id : Nat) : Option (Nat × Option G16) :=
+  (m.find? (fun e => e.1 == id)).map (·.2)
+
+def finishedSet (m : List (Nat × Nat × Option G16)) (id : Nat) (v : Nat × Option G16) : List (Nat × Nat × Option G16) :=
+  (id, v) :: m.filter (fun e => e.1 != id)
+
+/-- `ClosureCtx::needs_to_do_lookup(id, current_glyphs)`: the entry `(count, covered)` of the lookup is
+reset when the closure grew since it was last run; the lookup is skipped when every current glyph is
+already covered; otherwise the current glyphs are added to `covered`. -/
+def needsToDo (c : Cx) (id : Nat) (current : Option G16) : Bool × Cx :=
+  let e0 := (finishedGet c.finished id).getD (0, none)
+  let e1 : Nat × Option G16 := if e0.1 ≠ c.glyphs.length then (c.glyphs.length, some []) else e0
+  let cur := current.getD c.glyphs
+  if cur.all (fun g => match e1.2 with | some cov => cov.contains g | none => false) then
+    (false, { c with finished := finishedSet c.finished id e1 })
+  else
+    (true, { c with finished := finishedSet c.finished id (e1.1, some ((e1.2.getD []).ext cur)) })
+
+/-- `SingleSubstFormat1::iter_subs`: `(gid as i32).checked_add(delta as i32)`, `u16::try_from(..).ok()?` -/
+def single1Subs (covGlyphs : List Nat) (delta : Int) : List (Nat × Nat) :=
+  covGlyphs.filterMap (fun (g : Nat) =>
+    let raw : Int := (g : Int) + delta
+    if -2147483648 ≤ raw ∧ raw ≤ 2147483647 ∧ 0 ≤ raw ∧ raw < 65536 then some (g, raw.toNat) else none)
+
+/-- `for (target, replacement) in … { if ctx.current_glyphs().contains(target) { ctx.add_glyph(replacement) } }`
+(`SingleSubst`, the last loop of `ReverseChainSingleSubstFormat1`) -/
+def addPairs (c : Cx) : List (Nat × Nat) → Cx
+  | [] => c
+  | (t, r) :: rest => addPairs (if c.current.contains t then c.addGlyph r else c) rest
+
+/-- the loop of `MultipleSubstFormat1` / `AlternateSubstFormat1` over `coverage.iter().zip(sets.iter())`:
+`replacements?` comes before the membership test -/
+def addSeqs (c : Cx) : List (Nat × PR (List Nat)) → CR Cx
+  | [] => .ok c
+  | (_, .error e) :: _ => .err e
+  | (g, .ok reps) :: rest => addSeqs (if c.current.contains g then c.extendGlyphs reps else c) rest
+
+/-- `for lig in lig_set.ligatures().iter()`: `lig?`, all components in the closure glyphs → add -/
+def addLigs (c : Cx) : List (PR (Nat × List Nat)) → CR Cx
+  | [] => .ok c
+  | .error e :: _ => .err e
+  | .ok (lig, comps) :: rest => addLigs (if comps.all (fun g => c.glyphs.contains g) then c.addGlyph lig else c) rest
+
+/-- the loop of `LigatureSubstFormat1` over `coverage.iter().zip(ligature_sets().iter())` -/
+def addLigSets (c : Cx) : List (Nat × PR (List (PR (Nat × List Nat)))) → CR Cx
+  | [] => .ok c
+  | (_, .error e) :: _ => .err e
+  | (g, .ok ligs) :: rest =>
+    if c.current.contains g then (addLigs c ligs).bind (fun c' => addLigSets c' rest) else addLigSets c rest
+
+/-- the first loop of `ReverseChainSingleSubstFormat1`: every backtrack / lookahead coverage must
+contain a closure glyph (`coverage?` first) -/
+def reverseGate (c : Cx) : List (PR Coverage) → CR Bool
+  | [] => .ok true
+  | .error e :: _ => .err e
+  | .ok cov :: rest => if (covIter cov).any (fun g => c.glyphs.contains g) then reverseGate c rest else .ok false
+
+/-- `intersect_coverage`: `None` for an empty intersection -/
+def intersectCoverage (cov : Coverage) (glyphs : G16) : Option G16 :=
+  let r := G16.ofList ((covIter cov).filter (fun g => glyphs.contains g))
+  if r.isEmpty then none else some r
+
+/-- the `for lookup_record in rule.lookup_records()` loop of `ContextFormat1`; `seen` =
+`seen_sequence_indices`, `i` = the rule set's index in `coverage.iter().zip(rule_sets()).enumerate()`.
+`coverage.iter().nth(i).unwrap()` and `sequence_idx as usize - 1` are the two panic sites. -/
+def ruleTodos1 (covGlyphs : List Nat) (i : Nat) (input : List Nat) : Cx → List Nat → List SeqRec → CR Cx
+  | c, _, [] => .ok c
+  | c, seen, r :: rest =>
+    if seen.contains r.seqIdx then ruleTodos1 covGlyphs i input (c.addTodo r.lookup none) seen rest
+    else if r.seqIdx = 0 then
+      match covGlyphs[i]? with
+      | none => .trap
+      | some g => ruleTodos1 covGlyphs i input (c.addTodo r.lookup (some (G16.ofList [g]))) (r.seqIdx :: seen) rest
+    else
+      match subTrap r.seqIdx 1 with
+      | .trap => .trap
+      | .val k =>
+        match input[k]? with
+        | some g => ruleTodos1 covGlyphs i input (c.addTodo r.lookup (some (G16.ofList [g]))) (r.seqIdx :: seen) rest
+        | none => ruleTodos1 covGlyphs i input c (r.seqIdx :: seen) rest
+
+/-- `Format1Rule::matches_glyphs` / `Format2Rule::matches_classes` -/
+def ruleMatches (r : Rule) (s : List Nat) : Bool := (r.input ++ r.back ++ r.look).all (fun g => s.contains g)
+
+/-- `for rule in seq?.rules()` of `ContextFormat1` -/
+def rulesLoop1 (covGlyphs : List Nat) (i : Nat) : Cx → List (PR Rule) → CR Cx
+  | c, [] => .ok c
+  | _, .error e :: _ => .err e
+  | c, .ok rule :: rest =>
+    if ruleMatches rule c.glyphs then
+      (ruleTodos1 covGlyphs i rule.input c [] rule.recs).bind (fun c' => rulesLoop1 covGlyphs i c' rest)
+    else rulesLoop1 covGlyphs i c rest
+
+/-- the outer loop of `ContextFormat1`: `coverage.iter().zip(rule_sets()).enumerate()`, null rule sets and
+rule sets of glyphs outside `cur_glyphs` filtered out, then `seq?` -/
+def setsLoop1 (covGlyphs : List Nat) (curGlyphs : G16) : Cx → Nat → List (Nat × Option (PR (List (PR Rule)))) → CR Cx
+  | c, _, [] => .ok c
+  | c, i, (_, none) :: rest => setsLoop1 covGlyphs curGlyphs c (i + 1) rest
+  | c, i, (g, some s) :: rest =>
+    if curGlyphs.contains g then
+      match s with
+      | .error e => .err e
+      | .ok rules => (rulesLoop1 covGlyphs i c rules).bind (fun c' => setsLoop1 covGlyphs curGlyphs c' (i + 1) rest)
+    else setsLoop1 covGlyphs curGlyphs c (i + 1) rest
+
+/-- `make_class_set`: the classes of the closure glyphs -/
+def makeClassSet (cls : ClassDef) : List Nat → CR (List Nat)
+  | [] => .ok []
+  | g :: rest => (CR.ofRes (clsGet cls g)).bind (fun k => (makeClassSet cls rest).bind (fun ks => .ok (k :: ks)))
+
+/-- `intersect_class`: the glyphs of the set with that class -/
+def intersectClass (cls : ClassDef) (cl : Nat) : List Nat → CR G16
+  | [] => .ok []
+  | g :: rest =>
+    (CR.ofRes (clsGet cls g)).bind (fun k =>
+      (intersectClass cls cl rest).bind (fun gs => .ok (if k = cl then G16.ofList (g :: gs) else gs)))
+
+/-- the lookup record loop of `ContextFormat2` for the rule set of class `classI` -/
+def ruleTodos2 (cls : ClassDef) (curGlyphs : G16) (classI : Nat) (input : List Nat) : Cx → List Nat → List SeqRec → CR Cx
+  | c, _, [] => .ok c
+  | c, seen, r :: rest =>
+    if seen.contains r.seqIdx then ruleTodos2 cls curGlyphs classI input (c.addTodo r.lookup none) seen rest
+    else if r.seqIdx = 0 then
+      (intersectClass cls classI curGlyphs).bind (fun a =>
+        ruleTodos2 cls curGlyphs classI input (c.addTodo r.lookup (some a)) (r.seqIdx :: seen) rest)
+    else
+      match subTrap r.seqIdx 1 with
+      | .trap => .trap
+      | .val k =>
+        match input[k]? with
+        | some cl =>
+          (intersectClass cls cl c.glyphs).bind (fun a =>
+            ruleTodos2 cls curGlyphs classI input (c.addTodo r.lookup (some a)) (r.seqIdx :: seen) rest)
+        | none => ruleTodos2 cls curGlyphs classI input c (r.seqIdx :: seen) rest
+
+def rulesLoop2 (cls : ClassDef) (curGlyphs : G16) (ourClasses : List Nat) (classI : Nat) : Cx → List (PR Rule) → CR Cx
+  | c, [] => .ok c
+  | _, .error e :: _ => .err e
+  | c, .ok rule :: rest =>
+    if ruleMatches rule ourClasses then
+      (ruleTodos2 cls curGlyphs classI rule.input c [] rule.recs).bind (fun c' =>
+        rulesLoop2 cls curGlyphs ourClasses classI c' rest)
+    else rulesLoop2 cls curGlyphs ourClasses classI c rest
+
+/-- the outer loop of `ContextFormat2`: `rule_sets().enumerate()`, null sets and sets of classes outside
+`our_classes` filtered out (`i as u16`) -/
+def setsLoop2 (cls : ClassDef) (curGlyphs : G16) (ourClasses : List Nat) : Cx → Nat → List (Option (PR (List (PR Rule)))) → CR Cx
+  | c, _, [] => .ok c
+  | c, i, none :: rest => setsLoop2 cls curGlyphs ourClasses c (i + 1) rest
+  | c, i, some s :: rest =>
+    if ourClasses.contains (i % 65536) then
+      match s with
+      | .error e => .err e
+      | .ok rules =>
+        (rulesLoop2 cls curGlyphs ourClasses (i % 65536) c rules).bind (fun c' =>
+          setsLoop2 cls curGlyphs ourClasses c' (i + 1) rest)
+    else setsLoop2 cls curGlyphs ourClasses c (i + 1) rest
+
+/-- `ArrayOfOffsets::get(idx)` -/
+def arrGet {α : Type} (xs : List (PR α)) (idx : Nat) : PR α :=
+  match xs[idx]? with
+  | some r => r
+  | none => .error (.badIndex (idx % 4294967296))
+
+/-- `ContextFormat3::matches_glyphs`: every input / backtrack / lookahead coverage has a closure glyph; a
+coverage that fails to read counts as "no" -/
+def ctx3Matches (covs : List (PR Coverage)) (glyphs : G16) : Bool :=
+  covs.all (fun r => match r with
+    | .ok cov => (covIter cov).any (fun g => glyphs.contains g)
+    | .error _ => false)
+
+/-- the lookup record loop of `ContextFormat3` (`seen_sequence_indices` is created INSIDE the loop, so
+the "seen before" branch is never taken) -/
+def ctx3Todos (covs : List (PR Coverage)) (curGlyphs : G16) : Cx → List SeqRec → CR Cx
+  | c, [] => .ok c
+  | c, r :: rest =>
+    if r.seqIdx = 0 then ctx3Todos covs curGlyphs (c.addTodo r.lookup (some curGlyphs)) rest
+    else
+      match arrGet covs r.seqIdx with
+      | .error e => .err e
+      | .ok cov =>
+        ctx3Todos covs curGlyphs
+          (c.addTodo r.lookup (some (G16.ofList ((covIter cov).filter (fun g => c.glyphs.contains g))))) rest
+
+def liftPR {α β : Type} (r : PR α) (k : α → CR β) : CR β :=
+  match r with
+  | .ok a => k a
+  | .error e => .err e
+
+/-- `GlyphClosure::add_reachable_glyphs` of every subtable type -/
+def subAdd (c : Cx) : Sub → CR Cx
+  | .single1 cov delta => liftPR cov (fun cv => .ok (addPairs c (single1Subs (covIter cv) delta)))
+  | .single2 cov subs => liftPR cov (fun cv => .ok (addPairs c ((covIter cv).zip subs)))
+  | .multiple cov seqs => liftPR cov (fun cv => addSeqs c ((covIter cv).zip seqs))
+  | .ligature cov sets => liftPR cov (fun cv => addLigSets c ((covIter cv).zip sets))
+  | .reverse others cov subs =>
+    (reverseGate c others).bind (fun pass =>
+      if pass then liftPR cov (fun cv => .ok (addPairs c ((covIter cv).zip subs))) else .ok c)
+  | .ctx1 cov sets =>
+    liftPR cov (fun cv =>
+      match intersectCoverage cv c.current with
+      | none => .ok c
+      | some cur => setsLoop1 (covIter cv) cur c 0 ((covIter cv).zip sets))
+  | .ctx2 cov cls sets =>
+    liftPR cov (fun cv =>
+      match intersectCoverage cv c.current with
+      | none => .ok c
+      | some cur =>
+        liftPR cls (fun cd =>
+          (makeClassSet cd c.glyphs).bind (fun ours => setsLoop2 cd cur ours c 0 sets)))
+  | .ctx3 covs others recs =>
+    liftPR (arrGet covs 0) (fun cov0 =>
+      match intersectCoverage cov0 c.current with
+      | none => .ok c
+      | some cur => if ctx3Matches (covs ++ others) c.glyphs then ctx3Todos covs cur c recs else .ok c)
+
+/-- `Subtables::add_reachable_glyphs`: `self.iter().try_for_each(|t| t?.add_reachable_glyphs(ctx))` -/
+def subsLoop : Cx → List (PR Sub) → CR Cx
+  | c, [] => .ok c
+  | _, .error e :: _ => .err e
+  | c, .ok s :: rest => (subAdd c s).bind (fun c' => subsLoop c' rest)
+
+/-- `ClosureCtx::closure_glyphs(lookup, lookup_id, current_glyphs)` -/
+def closureLookup (c : Cx) (lk : Lookup) (id : Nat) (current : Option G16) : CR Cx :=
+  let r := needsToDo c id current
+  if r.1 then
+    liftPR lk (fun subs => (subsLoop { r.2 with cur := current } subs).bind (fun c' => .ok { c' with cur := none }))
+  else .ok r.2
+
+/-- the `for idx in lookups_to_use.iter()` loop of `closure_glyphs_once` -/
+def onceLookups (lookups : List (PR Lookup)) : Cx → List Nat → CR Cx
+  | c, [] => .ok c
+  | c, idx :: rest =>
+    liftPR (arrGet lookups idx) (fun lk => (closureLookup c lk idx none).bind (fun c' => onceLookups lookups c' rest))
+
+/-- the `while let Some(todo) = ctx.pop_a_todo()` loop; `none` = out of fuel -/
+def todoLoop (lookups : List (PR Lookup)) : Nat → Cx → Option (CR Cx)
+  | 0, _ => none
+  | fuel + 1, c =>
+    match c.todos with
+    | [] => some (.ok c)
+    | (id, active) :: rest =>
+      match arrGet lookups id with
+      | .error e => some (.err e)
+      | .ok lk =>
+        match closureLookup { c with todos := rest } lk id active with
+        | .ok c' => todoLoop lookups fuel c'
+        | .err e => some (.err e)
+        | .trap => some .trap
+
+/-- `Gsub::closure_glyphs_once` (`self.lookup_list()?` first) -/
+def closureOnce (g : GsubT) (reachable : List Nat) (fuel : Nat) (c : Cx) : Option (CR Cx) :=
+  match g.lookups with
+  | .error e => some (.err e)
+  | .ok lookups =>
+    match onceLookups lookups c reachable with
+    | .ok c' => todoLoop lookups fuel c'
+    | .err e => some (.err e)
+    | .trap => some .trap
+
+/-- `lookup_ids.extend(feature?.lookup_list_indices())` over a list of features -/
+def extendIds : List Nat → List (PR (List Nat)) → PR (List Nat)
+  | ids, [] => .ok ids
+  | _, .error e :: _ => .error e
+  | ids, .ok xs :: rest => extendIds (xs.foldl (fun s x => insertUniq x s) ids) rest
+
+/-- `Gsub::find_reachable_lookups`: the lookup indices of every feature of the feature list, then of every
+alternate feature of the feature variations (`feature_variations().transpose()?`) -/
+def findReachable (g : GsubT) : PR (List Nat) := do
+  let feats ← g.features
+  let alts ← (match g.fvars with
+    | none => pure []
+    | some r => do
+      let recs ← r
+      pure (recs.flatMap (fun o => o.getD [])))
+  extendIds [] (feats ++ alts)
+
+/-- the `while (prev_glyph_count, prev_lookup_count) != (new_glyph_count, new_lookup_count)` loop of
+`Gsub::closure_glyphs`; `none` = out of fuel (outer fuel `fuelO`, inner `fuelI`) -/
+def closureLoop (g : GsubT) (reachable : List Nat) (fuelI : Nat) : Nat → Nat × Nat → Cx → Option (CR Cx)
+  | 0, _, _ => none
+  | fuelO + 1, prev, c =>
+    let new := (c.glyphs.length, reachable.length)
+    if prev = new then some (.ok c)
+    else
+      match closureOnce g reachable fuelI c with
+      | none => none
+      | some (.ok c') => closureLoop g reachable fuelI fuelO new c'
+      | some (.err e) => some (.err e)
+      | some .trap => some .trap
+
+/-- `Gsub::closure_glyphs(glyphs)` -/
+def closureGlyphs (g : GsubT) (glyphs : G16) (fuelO fuelI : Nat) : Option (CR G16) :=
+  match findReachable g with
+  | .error e => some (.err e)
+  | .ok reachable =>
+    match closureLoop g reachable fuelI fuelO (0, 0) ⟨glyphs, none, [], []⟩ with
+    | none => none
+    | some (.ok c) => some (.ok c.glyphs)
+    | some (.err e) => some (.err e)
+    | some .trap => some .trap
 
 end FontVerif.HandLayout
